@@ -171,10 +171,53 @@ class Report:
 
 
 # --------------------------------------------------------------------------- parallel map
+CURRENT_PID = [None]  # set by vf/run.py before a check's run(); inherited by forked workers
+
+
+def library_exception(e):
+    """(exception type name, library function, 'file:line') if the exception `e` was raised by code of the library under
+    test (innermost traceback frame inside <VERIF_REPO>/circuitpython_nrf24l01 or a module it vendors), else None.
+    An exception that originates in harness code - also one provoked by a renamed private attribute - stays a harness error."""
+    import traceback
+    from .sim import Abort
+    if isinstance(e, (HarnessError, Abort, KeyboardInterrupt, MemoryError)):
+        return None
+    tb = traceback.extract_tb(e.__traceback__)
+    if not tb:
+        return None
+    root = os.path.realpath(os.path.join(os.environ.get("VERIF_REPO", "/repo"), "circuitpython_nrf24l01")) + os.sep
+    last = tb[-1]
+    if not os.path.realpath(last.filename).startswith(root):
+        return None
+    # the call must have been made by the harness with arguments the documentation allows; calls whose exceptions are
+    # part of an oracle are caught where they are made and never get here
+    return type(e).__name__, last.name, "%s:%d" % (os.path.basename(last.filename), last.lineno)
+
+
+def guarded(fn, item, rep):
+    """fn(item, rep); an exception raised *by the library* on a call of the harness's own scaffolding (building nodes,
+    configuring a link, driving a scenario with documented-valid arguments) is a verdict about the library, not a harness
+    error: the scenario the property speaks about cannot even be set up.  Reported under <PID>/library-raises:..."""
+    try:
+        fn(item, rep)
+    except Exception as e:  # noqa
+        le = library_exception(e)
+        if le is None:
+            raise
+        import traceback
+        pid = CURRENT_PID[0] or "C??"
+        tb = "".join(traceback.format_exception(type(e), e, e.__traceback__))[-1500:]
+        rep.violation("%s/library-raises:%s:%s" % (pid, le[0], le[1]),
+                      "the library raised %s(%s) in %s (%s) during a call the harness makes with documented-valid arguments [%s, work item %s]" % (
+                          le[0], str(e)[:120], le[1], le[2], fn.__name__, repr(item)[:200]),
+                      {"part": "library-raises", "fn": fn.__name__, "traceback": tb})
+        rep.outcome("library-raises")
+
+
 def _worker_entry(args):
     fn, item = args
     rep = Report()
-    fn(item, rep)
+    guarded(fn, item, rep)
     return rep.dump()
 
 
@@ -185,7 +228,7 @@ def pmap(fn, items, rep, workers=None, chunksize=1):
     workers = NWORKERS if workers is None else workers
     if os.environ.get("VERIF_SERIAL") or workers <= 1 or len(items) <= 1:
         for it in items:
-            fn(it, rep)
+            guarded(fn, it, rep)
         return
     ctx = multiprocessing.get_context("fork")
     stall = float(os.environ.get("VERIF_STALL_S", "3600"))
